@@ -290,3 +290,64 @@ def t6(ctx):
     return [ctx.ob(bool(ys) and not skipping, fi.qualname, where(fi, lp), "every reported change is yielded",
                    "each iteration reaches the yield", "an iteration of the loop over store.iter_changes can go on to the next item without yielding: some members are never "
                    "reported as created/changed/removed by sync-collection although PROPFIND lists them")]
+
+
+@rule("C07", "T7", floor=2, kind="S",
+      desc="nothing the reporter yields is dropped on the way out: the multistatus wrapper hands every response to "
+           "_send_dav_responses (the 404 responses are how removed members are reported), and the report is cut short "
+           "only when the client sent DAV:limit, by the number the client sent")
+def t7(ctx):
+    from .common import requires_edge
+    obs = []
+    w = ctx.func("xandikos.webdav.multistatus.<locals>.wrapper")
+    cfg = ctx.cfg(w)
+    du = DefUse(cfg)
+    sends = [(n, c) for n in cfg.stmt_nodes() for c in n.calls() if (dotted(c.func) or "").split(".")[-1] == "_send_dav_responses" and c.args]
+    if not sends:
+        raise AnalysisError("multistatus wrapper: _send_dav_responses call not found")
+    for n, c in sends:
+        os_ = origins(du, n, c.args[0])
+        whole = bool(os_) and all(o.kind == "expr" and isinstance(o.leaf, ast.List) and not o.leaf.elts and not o.path for o in os_)
+        # ... filled by an unconditional append of each item of the wrapped generator
+        appended = False
+        if bool(os_) and all(o.kind == "expr" and isinstance(o.leaf, ast.ListComp) and len(o.leaf.generators) == 1 and not o.leaf.generators[0].ifs
+                             and isinstance(o.leaf.elt, ast.Name) and isinstance(o.leaf.generators[0].target, ast.Name)
+                             and o.leaf.elt.id == o.leaf.generators[0].target.id and isinstance(o.leaf.generators[0].iter, ast.Call) and not o.path for o in os_):
+            whole = appended = True        # `[resp async for resp in req_fn(...)]`: every item, unfiltered
+        if whole and isinstance(c.args[0], ast.Name):
+            for m in cfg.stmt_nodes():
+                for cc in m.calls():
+                    if isinstance(cc.func, ast.Attribute) and cc.func.attr in ("append",) and dotted(cc.func.value) == c.args[0].id and cc.args:
+                        eo = origins(du, m, cc.args[0])
+                        if eo and all(o.kind == "elem" for o in eo) and not [t for t, _p in cfg.required_conditions(m)]:
+                            appended = True
+        obs.append(ctx.ob(whole and appended, w.qualname, where(w, n), "every yielded response is rendered",
+                          "responses = []; append(each item); _send_dav_responses(responses)",
+                          "the multistatus wrapper does not hand `%s` to _send_dav_responses as collected: responses are filtered or rebuilt on the "
+                          "way out, and the response-level 404s by which a sync report announces removed members can be lost" % src(c.args[0])))
+    rp = ctx.own_method(REP, "report")
+    cfg = ctx.cfg(rp)
+    du = DefUse(cfg)
+    cuts = [(n, c) for n in cfg.stmt_nodes() for c in n.calls() if (dotted(c.func) or "").split(".")[-1] == "islice" and len(c.args) >= 2]
+    limit_vars = set()
+    for n in cfg.stmt_nodes():
+        if n.kind == "stmt" and isinstance(n.ast, ast.Assign) and isinstance(n.ast.targets[0], ast.Name):
+            v = n.ast.value
+            if isinstance(v, ast.Attribute) and v.attr == "text" or (isinstance(v, ast.Name) and False):
+                limit_vars.add(n.ast.targets[0].id)
+    for n, c in cuts:
+        # the bound is the number in the request
+        bo = origins(du, n, c.args[1])
+        from_request = bool(bo) and all(o.kind == "expr" and isinstance(o.leaf, ast.Call) and (dotted(o.leaf.func) or "") == "int" and o.leaf.args
+                                        and isinstance(o.leaf.args[0], ast.Attribute) and o.leaf.args[0].attr == "text" for o in bo)
+        # and the cut happens only if the request carried a limit element
+        guarded_ = any(isinstance(t, ast.Compare) and len(t.ops) == 1 and isinstance(t.comparators[0], ast.Constant) and t.comparators[0].value is None
+                       and ((isinstance(t.ops[0], ast.IsNot) and pol) or (isinstance(t.ops[0], ast.Is) and not pol))
+                       for t, pol in cfg.required_conditions(n))
+        obs.append(ctx.ob(from_request and guarded_, rp.qualname, where(rp, n), "report truncated only on the client's DAV:limit",
+                          "islice(diff, int(<nresults>.text)) under `limit is not None`",
+                          "`%s` cuts the report %s: members changed or removed beyond the cut are never reported, while the token returned "
+                          "already names the current state" % (src(c)[:60], "although the request carries no DAV:limit" if not guarded_ else "by a bound that is not the client's")))
+    if not cuts:
+        obs.append(ctx.ok(rp.qualname, rp.where, "report is never truncated", "no islice on the differences"))
+    return obs
